@@ -4481,6 +4481,9 @@ struct ExecutionTimeout {
 }
 
 impl ExecutionTimeout {
+    // One clock read per 1000 instructions costs less than 0.1% even for the cheapest instructions
+    const MAX_INTERVAL_INSTRUCTIONS: usize = 1000;
+
     fn new(execution_limit: Duration) -> Self {
         let now = Instant::now();
         let interval_seconds = (execution_limit / 10).as_secs_f64();
@@ -4531,8 +4534,12 @@ impl ExecutionTimeout {
                 // compared to the next interval's target duration.
                 let elapsed = (now - self.last_check).as_secs_f64();
                 let interval_adjustment = next_interval_duration / elapsed;
-                self.interval_instructions =
-                    (self.interval_instructions as f64 * interval_adjustment) as usize;
+                // The interval is derived from the rate measured in the previous interval, which is of
+                // no use when cheap instructions are followed by expensive ones: keep it short enough
+                // for the overshoot to stay small whatever the next instructions cost.
+                self.interval_instructions = ((self.interval_instructions as f64
+                    * interval_adjustment) as usize)
+                    .min(Self::MAX_INTERVAL_INSTRUCTIONS);
 
                 self.instructions_since_last_check = 0;
                 self.last_check = now;
